@@ -11,6 +11,7 @@ import (
 	"github.com/jrhy/mast"
 	"pgregory.net/rapid"
 	"verif/harness/core"
+	"verif/harness/ref"
 	"verif/harness/run"
 )
 
@@ -84,6 +85,8 @@ type c12Env struct {
 	// cur is the cursor of a forward/backward case: positioned once without faults; the
 	// faulted step and its retry are the same call on this same cursor
 	cur *mast.Cursor
+	// broken: a violation noticed while preparing the call (the provoked failing move)
+	broken error
 }
 
 var errInjectedCmp = errors.New("injected key-compare fault")
@@ -190,9 +193,17 @@ func c12Call(c C12Case, e *c12Env, arm bool) (opErr error, result string, post c
 			if c.K%2 == 1 {
 				// the cursor has a failed move behind it: one move during which every read of the store fails
 				// (rolled back, or - when it needed no read - simply made), before the move under test
+				k0, v0, ok0 := cur.Get()
 				e.load.failAll, e.armed = true, true
-				_ = core.Safely("provoked failing move", func() error { return f(cur) })
+				var merr error
+				perr := core.Safely("provoked failing move", func() error { merr = f(cur); return nil })
 				e.load.failAll, e.armed = false, false
+				if perr == nil && merr != nil {
+					// that move returned an error: the cursor must still be where it was
+					if k1, v1, ok1 := cur.Get(); ok1 != ok0 || fmt.Sprint(k1, v1) != fmt.Sprint(k0, v0) {
+						e.broken = fmt.Errorf("a cursor move during which every read of the store failed returned %q but moved the cursor from %v=%v,%v to %v=%v,%v", merr, k0, v0, ok0, k1, v1, ok1)
+					}
+				}
 			}
 			e.cur = cur
 			e.armed = arm
@@ -320,6 +331,9 @@ func runC12(c C12Case, o *run.Obs) error {
 	}
 	e0.load.failAt, e0.cmp.failAt, e0.marsh.failAt = nil, nil, nil
 	opErr, normalResult, _, skipped, pan := c12Call(c, e0, true)
+	if e0.broken != nil {
+		return fmt.Errorf("[%s] %s tree of %d entries (height %d), %s(k=%d): %w", c.Cfg, c.Residency, len(e0.t.Model), e0.t.M.Height(), c.Op, c.K, e0.broken)
+	}
 	if skipped {
 		o.Label("skipped:no-applicable-key")
 		return nil
@@ -453,6 +467,38 @@ func runC12(c C12Case, o *run.Obs) error {
 	return nil
 }
 
+// enumC12Tall: a ten-level tree (700 user keys at branch factor 2, layers = trailing zeros of the key number) opened from
+// the store; operations at shallow and deep positions, every fault position of each.
+func enumC12Tall(tier string, shard, nshards int, yield func(C12Case) bool) (bool, string) {
+	layers := make([]uint8, 700)
+	for i := range layers {
+		for x := i + 1; x%2 == 0 && layers[i] < 10; x /= 2 {
+			layers[i]++
+		}
+	}
+	cfg := core.Config{BF: 2, Format: ref.FormatBinary, Key: core.KLK, Val: core.VInt, Cache: "none", Marshaler: "json", LKLayers: layers, Big: 700}
+	base := []core.Op{{Kind: core.OpBulkIns, K: 0, V: 0, N: 700}}
+	i := 0
+	for _, op := range []string{"forward", "backward", "ceil", "max", "get", "delete", "insert", "seekiter"} {
+		for _, k := range []int{1, 2, 255, 385, 697} {
+			i++
+			if i%nshards != shard {
+				continue
+			}
+			res := "reloaded"
+			var dirty []core.Op
+			if i%3 == 0 {
+				res = "reloaded+dirty"
+				dirty = []core.Op{{Kind: core.OpUpdate, K: 5, V: 1}, {Kind: core.OpUpdate, K: 300, V: 2}}
+			}
+			if !yield(C12Case{Cfg: cfg, Base: base, Residency: res, Dirty: dirty, Op: op, K: k}) {
+				return false, ""
+			}
+		}
+	}
+	return false, "a ten-level tree (700 keys, bf 2): cursor moves, lookups, inserts and deletes at shallow and deep positions, every fault position"
+}
+
 func init() {
 	run.Register(run.Prop[C12Case]{
 		ID:    "C12",
@@ -462,6 +508,7 @@ func init() {
 		Assumptions: []string{"a call that returns nil although a fault fired, and a panic under fault, are outside the statement: counted in the evidence, not judged", "KeyCompare is wrapped around mast.DefaultKeyCompare built from the configured (fault-injecting) marshaler, as LoadMast builds it"},
 		Gen:         genC12,
 		Run:         runC12,
+		Enumerate:   enumC12Tall,
 	})
 }
 
